@@ -151,6 +151,7 @@ theorem F_take (units : List Nat) (lim : Option Nat) (r : List Int) (rest) (li f
           · rw [← a]; exact c
     · simp [a]
   simp only [this, Bool.false_eq_true, if_false]
+  rfl
 
 /-! the sweep (non-sticky, unlimited) -/
 abbrev S (fl : RFlags) (f : Finder) (units : List Nat) (fuel q : Nat) : List MatchR :=
@@ -287,9 +288,12 @@ theorem split_main (fl : RFlags) (f : Finder) (units : List Nat) (lim : Option N
             by_cases hl1 : (lim == some (acc.length + 1)) = true
             · simp [hl1, finish]
             · simp only [hl1, Bool.false_eq_true, if_false]
-              split
-              · simp [finish]
-              · -- continue
+              generalize hroom : (match lim with
+                | some l => l - (acc.length + 1)
+                | none => (captureValsPlain units (r.idx.drop 2)).length + 1) = room
+              by_cases hr : (captureValsPlain units (r.idx.drop 2)).length ≥ room
+              · simp [hr, finish]
+              · simp only [hr, if_false]
                 have hlen2 : acc.length + 1 + (captureValsPlain units (r.idx.drop 2)).length =
                     ((acc ++ [some (sub units p r.start)]) ++ captureValsPlain units (r.idx.drop 2)).length := by
                   simp; omega
